@@ -469,6 +469,92 @@ def ob_backend(backend):
     return Verdict(DISCHARGED, backend="native run", detail=f"rel diff vs direct {err:.1e}")
 
 
+def ob_backend_lsq():
+    """bounded least squares (scipy.optimize.lsq_linear): the back end of the bound-constrained damage solve, with a prescribed damage value so that the
+    system is reduced.  Every call handed to the library is captured: the bounds are the simulation's bounds (Get_lb_ub) restricted to the UNKNOWN dofs, the matrix is square of
+    that size; the damage kept by the simulation is, on the unknown dofs, the minimiser of the captured bounded problem (checked against an independent
+    active-set solve, BVLS, and the KKT conditions) and the prescribed value elsewhere; damage never leaves [previous damage, 1]."""
+    from EasyFEA import Models, Simulations, SolverType
+    from EasyFEA.Simulations import Solvers
+    from scipy import optimize as _opt
+    PF = Models.PhaseField
+    coords, connect = patches.star_patch("QUAD4", affine=None)
+    mesh = patches.real_mesh("QUAD4", coords, connect)
+    mat = Models.Elastic.Isotropic(2, E=3.0, v=0.25, planeStress=False)
+    pfm = PF(mat, PF.SplitType.Miehe, PF.ReguType.AT2, Gc=1.0, l0=0.8, solver=PF.SolverType.BoundConstrain)
+    simu = Simulations.PhaseField(mesh, pfm)
+    simu.solver = SolverType.scipy
+    co = np.asarray(mesh.coord)
+    n0 = np.where(np.isclose(co[:, 0], co[:, 0].min()))[0]
+    n1 = np.where(np.isclose(co[:, 0], co[:, 0].max()))[0]
+    calls = []
+    real = _opt.lsq_linear
+
+    def spy(A, b, bounds=(-np.inf, np.inf), **kw):
+        r = real(A, b, bounds=bounds, **kw)
+        calls.append((A.toarray() if hasattr(A, "toarray") else np.asarray(A), np.asarray(b).copy(), np.asarray(bounds[0]).copy(), np.asarray(bounds[1]).copy(), np.asarray(r["x"]).copy()))
+        return r
+    n = 0
+    fixed = int(n0[0])
+    unknown = np.array([k for k in range(mesh.Nn) if k != fixed])
+    prev = np.zeros(mesh.Nn)
+    Solvers.optimize.lsq_linear = spy
+    given = []
+    real_lbub = simu.Get_lb_ub
+
+    def lbub(problemType=None):
+        lb_, ub_ = real_lbub(problemType)
+        given.append((np.asarray(lb_).copy(), np.asarray(ub_).copy()))
+        return lb_, ub_
+    simu.Get_lb_ub = lbub
+    try:
+        for step, ud in enumerate((0.8, 1.2, 1.0, 1.5)):
+            simu.Bc_Init()
+            simu.add_dirichlet(n0, [0, 0], ["x", "y"])
+            simu.add_dirichlet(n1, [ud], ["x"])
+            simu.add_dirichlet(np.array([fixed]), [0.0], ["d"], problemType=simu.ProblemTypes.damage)
+            calls.clear()
+            try:
+                simu.Solve(tolConv=1e-6, maxIter=200)
+            except Exception as ex:
+                raise Refuted(f"bound-constrained damage solve with a prescribed damage value raises {type(ex).__name__}: {ex}", cex=dict(step=step), signature="backend:lsq:raises",
+                              replay=dict(confirmed=True, error=str(ex)[:200]))
+            d = np.asarray(simu.damage).copy()
+            if not calls:
+                raise Unsupported("lsq_linear was not reached")
+            A, b, lb, ub, x = calls[-1]
+            n += 4
+            if A.shape != (unknown.size, unknown.size) or lb.shape != (unknown.size,) or ub.shape != (unknown.size,):
+                raise Refuted(f"step {step}: the bounded problem handed to lsq_linear has A {A.shape}, bounds {lb.shape}: expected the {unknown.size} unknown dofs", signature="backend:lsq:shape", replay=dict(confirmed=True))
+            glb, gub = [g_ for g_ in given if g_[0].size][-1]
+            if not (np.array_equal(lb, glb[unknown]) and np.array_equal(ub, gub[unknown]) and (glb >= prev - 1e-12).all()):
+                raise Refuted(f"step {step}: bounds handed to lsq_linear are not the simulation's bounds (Get_lb_ub) restricted to the unknown dofs, or lie below the damage of the previous step",
+                              signature="backend:lsq:bounds_passed", replay=dict(confirmed=True, lb=lb.tolist(), given=glb.tolist()))
+            ref = real(A, b, bounds=(lb, ub), method="bvls", tol=1e-14)["x"]
+            if not np.array_equal(x, d[unknown]):
+                raise Refuted(f"step {step}: the damage kept by the simulation is not the vector returned by the bounded solve placed on the unknown dofs (max diff {np.abs(x - d[unknown]).max():.3e})",
+                              signature="backend:lsq:scatter", replay=dict(confirmed=True))
+            if np.abs(ref - d[unknown]).max() > 1e-4 or abs(d[fixed]) > 1e-12:        # 1e-4: the agreement asked of every iterative back end
+                raise Refuted(f"step {step}: the damage kept by the simulation differs from the minimiser of the bounded problem by {np.abs(ref - d[unknown]).max():.3e} (prescribed value: {d[fixed]:.1e})",
+                              signature="backend:lsq:value", replay=dict(confirmed=True))
+            g = A.T @ (A @ d[unknown] - b)
+            sc = np.abs(A.T @ b).max()
+            free = (d[unknown] > lb + 1e-7) & (d[unknown] < ub - 1e-7)
+            at_lb = d[unknown] <= lb + 1e-7
+            if np.abs(g[free]).max(initial=0) > 1e-4 * sc or (g[at_lb] < -1e-4 * sc).any():
+                raise Refuted(f"step {step}: KKT conditions of the bounded least-squares problem violated (max free gradient {np.abs(g[free]).max(initial=0):.2e}, min gradient at the lower bound {g[at_lb].min(initial=0):.2e})",
+                              signature="backend:lsq:kkt", replay=dict(confirmed=True))
+            if (d < prev - 1e-9).any() or (d > 1 + 1e-12).any():
+                raise Refuted(f"step {step}: damage leaves [previous damage, 1] (min d - lb = {float((d - prev).min()):.3e})", signature="backend:lsq:bounds", replay=dict(confirmed=True))
+            simu.Save_Iter()
+            prev = d
+    finally:
+        Solvers.optimize.lsq_linear = real
+    if not prev.max() > 0.05:
+        raise Unsupported("no damage developed")
+    return Verdict(DISCHARGED, backend="native run; library calls captured", sub=n, detail=f"max damage {float(prev.max()):.3f}")
+
+
 def ob_lagrange():
     """Lagrange-multiplier (connection) constraints: a beam frame with a hinge: constraints satisfied exactly and solution equals the elimination
     solution of the equivalent Dirichlet problem."""
@@ -744,6 +830,8 @@ def build(tier, seed):
         if backend == "lsq_linear":
             continue
         obs.append(Ob(f"C04.backend.{backend}", ob_backend, (backend,), "X", (f"{SOL}::_Solve_Axb",), bound="one 9-node thermal problem", clause="agrees with the direct solve (1e-4), constraints exact", timeout=300))
+    obs.append(Ob("C04.backend.lsq_linear", ob_backend_lsq, (), "X", (f"{SOL}::_Solve_Axb", "EasyFEA/Simulations/_phasefield.py::PhaseField.Get_lb_ub"), bound="one 9-node phase-field problem, 4 load steps (one unloading)",
+                  clause="bounded least squares with a reduced system: bounds of the unknown dofs handed over, result == minimiser of the captured bounded problem (independent BVLS solve, KKT), prescribed value held, damage within [previous, 1]", timeout=600))
     obs.append(Ob("C04.lagrange.vs_elim", ob_lagrange_vs_elim, (), "X", (f"{SOL}::__Solver_2",), bound="one thermal problem with one multi-point constraint",
                   clause="bordered system == elimination solution; multi-point constraint satisfied", timeout=300))
     for dirichlet, lagr in (([(0, 2.0), (3, -1.0)], [([1, 2], [1, -1], 0.5)]),
